@@ -323,6 +323,11 @@ func c13Scaling(c *Ctx, sx *symx.Ctx) {
 			}
 		}
 	}
+	if table == nil && tableUse == nil {
+		// no table at all: the boost is read from ContextBoosts where it is needed
+		c13BoostFlow(c, sx, fn, fk, f, nil)
+		return
+	}
 	if table == nil {
 		r.Bad("O-2", fk+"#boost-table", c.P.Pos(fn.Pos()), "the per-term boost table (map[string]float64 looked up per term) is not a map made here or in a helper that returns it: its contents cannot be accounted for")
 		return
@@ -479,13 +484,23 @@ func c13Scaling(c *Ctx, sx *symx.Ctx) {
 		}
 		r.Check(after && guarded && atLeast1, "O-2", key, c.P.Pos(mu.Pos()), fmt.Sprintf("if table[k] < %s { table[k] = %s } after the context copy", desc, desc), "an entry of the boost table is overwritten without the guard `table[k] < c` (or before the context boosts are copied in): a context boost can be replaced by a smaller factor, lowering the score of commands that contain the boosted word")
 	}
-	// lookup: table[term] and postings[term] share the term
-	var lk *ssa.Lookup
-	ssau.ForEachInstr(fn, false, func(in ssa.Instruction) {
-		if l, ok := in.(*ssa.Lookup); ok && l.X == tableUse {
-			lk = l
-		}
-	})
+	c13BoostFlow(c, sx, fn, fk, fLookup, tableUse)
+}
+
+// c13BoostFlow follows the looked-up boost from its lookup to the score
+// accumulator. The lookup is made on the boost table (tableUse) in fn, or —
+// when there is no table — on ContextBoosts itself (the option, or a field
+// that only ever receives it) in fn or in a helper fn calls with the term.
+//
+// The boost b may be compared with constants, merged with the constant 1 or
+// with a larger constant that arrives only where b was found smaller (an
+// emphasis can raise a boost, never lower it), and from there only multiplied
+// into a product that is ADDED into the accumulator of a loop over this
+// term's own postings, through helper parameters, results and local
+// variables. Wherever a boost-derived value leaves the merge (into a product,
+// a call, a result) it is positive: a constant > 0, or tested `> c` (c >= 0).
+func c13BoostFlow(c *Ctx, sx *symx.Ctx, fn *ssa.Function, fk string, fLookup *symx.Fn, tableUse ssa.Value) {
+	r := c.R
 	var post *ssa.Lookup
 	ssau.ForEachInstr(fn, false, func(in ssa.Instruction) {
 		if l, ok := in.(*ssa.Lookup); ok {
@@ -494,94 +509,219 @@ func c13Scaling(c *Ctx, sx *symx.Ctx) {
 			}
 		}
 	})
-	if lk == nil || post == nil {
-		r.Bad("O-2", fk+"#boost-lookup", c.P.Pos(fn.Pos()), "the boost table or the postings are not looked up by term here")
-		return
+	type boostLookup struct {
+		lk   *ssa.Lookup
+		home *ssa.Function
+		site *ssa.Call // the call of home in fn (nil when home == fn)
 	}
-	r.Check(fLookup.E(lk.Index) == fLookup.E(post.Index), "O-2", fk+"#same-term", c.P.Pos(lk.Pos()), "termBoost[term] and postings[term] use the same term", "the boost is looked up for a different term than the postings it will scale")
-
-	// Where the looked-up boost b goes. It may be compared with a
-	// non-negative constant (the guard), merged with the constant 1, and from
-	// there only multiplied into a product that is added into the score
-	// accumulator of a loop over this term's own postings — through helper
-	// parameters and local variables, wherever the loop lives. Every way for b
-	// itself to travel on is behind `b > c` (c >= 0); the other inputs of the
-	// merge are the constant 1.
-	bval := resultValue2(lk, 0)
-	posEdges := map[[2]int]bool{} // edges on which b > c (c >= 0) holds
-	for _, iff := range ssau.Ifs(fn) {
-		op, x, y, okc := ssau.CondOf(iff.Cond)
-		if !okc {
-			continue
-		}
-		if y == bval {
-			x, y, op = y, x, ssau.Flip(op)
-		}
-		k, isK := ssau.ConstFloat(y)
-		if x != bval || !isK || k < 0 {
-			continue
-		}
-		switch op {
-		case token.GTR:
-			posEdges[[2]int{iff.Block().Index, 0}] = true
-		case token.LEQ:
-			posEdges[[2]int{iff.Block().Index, 1}] = true
-		case token.GEQ:
-			if k > 0 {
-				posEdges[[2]int{iff.Block().Index, 0}] = true
+	var lks []boostLookup
+	if tableUse != nil {
+		ssau.ForEachInstr(fn, false, func(in ssa.Instruction) {
+			if l, ok := in.(*ssa.Lookup); ok && l.X == tableUse {
+				lks = append(lks, boostLookup{l, fn, nil})
 			}
-		case token.LSS:
-			if k > 0 {
-				posEdges[[2]int{iff.Block().Index, 1}] = true
-			}
+		})
+	} else {
+		find := func(g *ssa.Function, site *ssa.Call) {
+			ssau.ForEachInstr(g, false, func(in ssa.Instruction) {
+				if l, ok := in.(*ssa.Lookup); ok && optLoad(l.X, "ContextBoosts") {
+					lks = append(lks, boostLookup{l, g, site})
+				}
+			})
 		}
-	}
-	// b reaches block blk (entering it from pred when pred != nil) only under the guard
-	guardedAt := func(blk, pred *ssa.BasicBlock) bool {
-		if len(posEdges) == 0 {
-			return false
-		}
-		if pred != nil {
-			for k2, sc := range pred.Succs {
-				if sc == blk && posEdges[[2]int{pred.Index, k2}] {
-					return true
+		find(fn, nil)
+		ssau.ForEachInstr(fn, false, func(in ssa.Instruction) {
+			if call, ok := in.(*ssa.Call); ok {
+				if g := call.Common().StaticCallee(); g != nil && c.P.IsRepoFunc(g) && len(g.Blocks) > 0 && g != fn {
+					find(g, call)
 				}
 			}
-			blk = pred
-		}
-		if blk == lk.Block() {
+		})
+	}
+	// the lookup made with the term whose postings are scored (the table is
+	// also read by the emphasis guards, under other keys)
+	termOf := func(b boostLookup) bool {
+		if post == nil {
 			return false
 		}
-		return !reachAvoidBB(lk.Block(), blk, posEdges, nil)
+		if b.home == fn {
+			return fLookup.E(b.lk.Index) == fLookup.E(post.Index)
+		}
+		p := ssau.ParamOf(b.lk.Index)
+		if p == nil {
+			p, _ = b.lk.Index.(*ssa.Parameter)
+		}
+		if p == nil {
+			return false
+		}
+		for i, q := range b.home.Params {
+			if q == p && i < len(b.site.Common().Args) {
+				return fLookup.E(b.site.Common().Args[i]) == fLookup.E(post.Index)
+			}
+		}
+		return false
+	}
+	if len(lks) > 1 {
+		var sel []boostLookup
+		for _, b := range lks {
+			if termOf(b) {
+				sel = append(sel, b)
+			}
+		}
+		if len(sel) > 0 {
+			lks = sel
+		}
+	}
+	if len(lks) != 1 || post == nil {
+		r.Bad("O-2", fk+"#boost-lookup", c.P.Pos(fn.Pos()), fmt.Sprintf("the boost (%d lookups found) or the postings are not looked up by term on the scoring path", len(lks)))
+		return
+	}
+	bl := lks[0]
+	lk := bl.lk
+	sameTerm := termOf(bl)
+	r.Check(sameTerm, "O-2", fk+"#same-term", c.P.Pos(lk.Pos()), "the boost and the postings are looked up with the same term", "the boost is looked up for a different term than the postings it will scale")
+
+	bval := resultValue2(lk, 0)
+	rawSet := map[ssa.Value]bool{}
+	cleanVals := map[ssa.Value]bool{}
+	// edges of v's function on which v > c (c >= 0) holds
+	guardEdges := func(v ssa.Value) map[[2]int]bool {
+		out := map[[2]int]bool{}
+		in, ok := v.(ssa.Instruction)
+		if !ok || in.Parent() == nil {
+			return out
+		}
+		for _, iff := range ssau.Ifs(in.Parent()) {
+			op, x, y, okc := ssau.CondOf(iff.Cond)
+			if !okc {
+				continue
+			}
+			if y == v {
+				x, y, op = y, x, ssau.Flip(op)
+			}
+			k, isK := ssau.ConstFloat(y)
+			if x != v || !isK || k < 0 {
+				continue
+			}
+			switch op {
+			case token.GTR:
+				out[[2]int{iff.Block().Index, 0}] = true
+			case token.LEQ:
+				out[[2]int{iff.Block().Index, 1}] = true
+			case token.GEQ:
+				if k > 0 {
+					out[[2]int{iff.Block().Index, 0}] = true
+				}
+			case token.LSS:
+				if k > 0 {
+					out[[2]int{iff.Block().Index, 1}] = true
+				}
+			}
+		}
+		return out
+	}
+	var cleanAt func(v ssa.Value, blk, pred *ssa.BasicBlock, d int) bool
+	cleanAt = func(v ssa.Value, blk, pred *ssa.BasicBlock, d int) bool {
+		if d > 6 {
+			return false
+		}
+		if k, ok := ssau.ConstFloat(v); ok {
+			return k > 0
+		}
+		if cleanVals[v] {
+			return true
+		}
+		// a test on v itself
+		if ge := guardEdges(v); len(ge) > 0 {
+			def := v.(ssa.Instruction).Block()
+			at := blk
+			if pred != nil {
+				for k2, sc := range pred.Succs {
+					if sc == blk && ge[[2]int{pred.Index, k2}] {
+						return true
+					}
+				}
+				at = pred
+			}
+			if at != def && !reachAvoidBB(def, at, ge, nil) {
+				return true
+			}
+		}
+		if ph, ok := v.(*ssa.Phi); ok {
+			for i, e := range ph.Edges {
+				if !cleanAt(e, ph.Block(), ph.Block().Preds[i], d+1) {
+					return false
+				}
+			}
+			return len(ph.Edges) > 0
+		}
+		return false
 	}
 	type flowState struct {
-		bad        string
-		guardOK    bool
-		onesOK     bool
-		accs       []*ssa.MapUpdate
-		seen       map[ssa.Value]bool
-		seenGuards int
+		bad     string
+		guardOK bool
+		onesOK  bool
+		accs    []*ssa.MapUpdate
+		seen    map[ssa.Value]bool
 	}
 	st := &flowState{guardOK: true, onesOK: true, seen: map[ssa.Value]bool{}}
-	rawSet := map[ssa.Value]bool{}
+	// a constant k on a merge edge raises: it arrives only where a boost-derived value was found below it
+	raises := func(k float64, ph *ssa.Phi, i int) bool {
+		if k == 1 {
+			return true
+		}
+		if k < 1 {
+			return false
+		}
+		pred := ph.Block().Preds[i]
+		g := ph.Parent()
+		cd := ssau.ControlDeps(g)
+		deps := ssau.TransitiveControlDeps(cd, pred)
+		if iff, ok := pred.Instrs[len(pred.Instrs)-1].(*ssa.If); ok {
+			for k2, sc := range pred.Succs {
+				if sc == ph.Block() {
+					deps = append(deps, ssau.CtrlDep{Branch: iff.Block(), Then: k2 == 0})
+				}
+			}
+		}
+		for _, d := range deps {
+			op, x, y, ok := ssau.CondOf(d.If().Cond)
+			if !ok {
+				continue
+			}
+			if !d.Then {
+				op = ssau.Negate(op)
+			}
+			if rawSet[y] {
+				x, y, op = y, x, ssau.Flip(op)
+			}
+			if kk, isK := ssau.ConstFloat(y); isK && rawSet[x] && kk == k && (op == token.LSS || op == token.LEQ) {
+				return true
+			}
+		}
+		return false
+	}
 	var walk func(v ssa.Value, raw bool, d int)
 	walk = func(v ssa.Value, raw bool, d int) {
-		if st.seen[v] || d > 40 || v.Referrers() == nil {
+		if st.seen[v] || d > 60 || v.Referrers() == nil {
 			return
 		}
 		st.seen[v] = true
 		if raw {
 			rawSet[v] = true
 		}
+		leaves := func(blk *ssa.BasicBlock) {
+			if raw && !cleanAt(v, blk, nil, 0) {
+				st.guardOK = false
+			}
+		}
 		for _, ref := range *v.Referrers() {
 			switch u := ref.(type) {
-			case *ssa.DebugRef:
+			case *ssa.DebugRef, *ssa.If:
 			case *ssa.BinOp:
 				switch u.Op {
 				case token.MUL:
-					if v == bval && !guardedAt(u.Block(), nil) {
-						st.guardOK = false
-					}
+					leaves(u.Block())
 					walk(u, false, d+1)
 				case token.ADD:
 					if raw {
@@ -598,7 +738,7 @@ func c13Scaling(c *Ctx, sx *symx.Ctx) {
 				case token.SUB:
 					st.bad = "a boosted quantity is subtracted"
 				case token.LSS, token.GTR, token.LEQ, token.GEQ, token.EQL, token.NEQ:
-					if v != bval {
+					if !raw {
 						st.bad = "a boosted quantity is compared (the boost may only scale)"
 					}
 				}
@@ -609,16 +749,15 @@ func c13Scaling(c *Ctx, sx *symx.Ctx) {
 			case *ssa.Phi:
 				for i, e := range u.Edges {
 					if e == v {
-						if v == bval && !guardedAt(u.Block(), u.Block().Preds[i]) {
-							st.guardOK = false
-						}
 						continue
 					}
 					if raw {
-						if k, ok := ssau.ConstFloat(e); !ok || k != 1 {
-							if !st.seen[e] {
+						if k, ok := ssau.ConstFloat(e); ok {
+							if !raises(k, u, i) {
 								st.onesOK = false
 							}
+						} else if !st.seen[e] && !rawSet[e] {
+							st.onesOK = false
 						}
 						continue
 					}
@@ -655,13 +794,11 @@ func c13Scaling(c *Ctx, sx *symx.Ctx) {
 					st.bad = "the boost itself is stored into a map"
 				}
 			case *ssa.Store:
-				// a local variable: continue at its loads
 				if al, ok := u.Addr.(*ssa.Alloc); ok && u.Val == v {
-					if v == bval && !guardedAt(u.Block(), nil) {
-						st.guardOK = false
-					}
+					leaves(u.Block())
 					for _, r2 := range *al.Referrers() {
 						if ld, ok := r2.(*ssa.UnOp); ok && ld.Op == token.MUL {
+							cleanVals[ld] = true
 							walk(ld, raw, d+1)
 						}
 					}
@@ -674,25 +811,42 @@ func c13Scaling(c *Ctx, sx *symx.Ctx) {
 					st.bad = "a boosted quantity is passed to " + ssau.CallName(u)
 					continue
 				}
-				if v == bval && !guardedAt(u.Block(), nil) {
-					st.guardOK = false
-				}
+				leaves(u.Block())
 				for i, a := range u.Common().Args {
 					if a == v && i < len(cal.Params) {
+						cleanVals[cal.Params[i]] = true
 						walk(cal.Params[i], raw, d+1)
 					}
 				}
 			case *ssa.Return:
-				st.bad = "a boosted quantity is returned"
-			case *ssa.If:
+				// out of the helper that looked the boost up: on at its call in fn
+				if u.Parent() == bl.home && bl.site != nil {
+					leaves(u.Block())
+					cleanVals[bl.site] = true
+					walk(bl.site, raw, d+1)
+				} else {
+					st.bad = "a boosted quantity is returned"
+				}
 			default:
 				st.bad = "a boosted quantity is used by " + ref.String()
 			}
 		}
 	}
 	walk(bval, true, 0)
+	// the other results of the helper: constants of the factor's range
+	if bl.site != nil {
+		for _, ret := range ssau.ReturnsOf(bl.home) {
+			rv := ssau.ResultValue(ret, 0)
+			if rawSet[rv] {
+				continue
+			}
+			if k, ok := ssau.ConstFloat(rv); !ok || k != 1 {
+				st.onesOK = false
+			}
+		}
+	}
 	r.Check(st.bad == "" && len(st.accs) > 0, "O-2", fk+"#boost-in-positive-position", c.P.Pos(lk.Pos()), fmt.Sprintf("the boost occurs only as a factor of a product added into the score accumulator (%d update site(s))", len(st.accs)), "on the way from the boost lookup to the score accumulator "+orStr(st.bad, "the boost never reaches an accumulator update"))
-	r.Check(st.guardOK && st.onesOK && len(posEdges) > 0, "O-3", fk+"#boost-guard", c.P.Pos(lk.Pos()), "the looked-up boost travels on only behind b > c (c >= 0); every other input of the merge is the constant 1", "the looked-up boost is used without a `b > 0` test, or the factor used otherwise is not the constant 1 (a zero or negative factor would erase or invert a term's contribution)")
+	r.Check(st.guardOK && st.onesOK, "O-3", fk+"#boost-guard", c.P.Pos(lk.Pos()), "a boost-derived value leaves the merge only where it is positive (b > c, c >= 0); the other inputs of the merge are the constant 1 or a larger constant under `b < constant`", "the looked-up boost is used without a `b > 0` test, or the factor used otherwise is not the constant 1 (a zero or negative factor would erase or invert a term's contribution; a smaller constant would lower a context boost)")
 	// the accumulator updates scaled by this boost lie in loops over this term's own postings
 	pairOK := len(st.accs) > 0
 	pls := postingLoops(c)
@@ -710,6 +864,13 @@ func c13Scaling(c *Ctx, sx *symx.Ctx) {
 	r.Check(pairOK, "O-2", fk+"#pair-handed-on", c.P.Pos(post.Pos()), "the term's own postings are scored with the term's boost", "the postings scored with this boost are not the ones looked up for the same term")
 }
 
+func orStr(a, b string) string {
+	if a != "" {
+		return a
+	}
+	return b
+}
+
 func allConstAtLeast1(vs []ssa.Value) bool {
 	for _, v := range vs {
 		if k, ok := ssau.ConstFloat(v); !ok || k < 1 || math.IsInf(k, 0) || math.IsNaN(k) {
@@ -717,13 +878,6 @@ func allConstAtLeast1(vs []ssa.Value) bool {
 		}
 	}
 	return len(vs) > 0
-}
-
-func orStr(a, b string) string {
-	if a != "" {
-		return a
-	}
-	return b
 }
 
 // c13ResolveMake: the map made by v: the make itself, or a load of a local
